@@ -2,7 +2,7 @@
 # try_seed.sh <patch.diff> <prop> [<prop>...] : applies a seeded change to /repo, runs the quick
 # checks of the given properties against it, and undoes the change straight afterwards.
 set -u
-PATCH=$1; shift
+PATCH=$(readlink -f "$1"); shift
 cd /repo || exit 2
 git diff --quiet || { echo "/repo has uncommitted changes"; exit 2; }
 git apply "$PATCH" || { echo "patch does not apply"; exit 2; }
@@ -13,3 +13,5 @@ for p in "$@"; do
 done
 git -C /repo checkout -- .
 git -C /repo status --short | head -3
+# regenerate the tables from the restored tree
+python3 -c "import sys; sys.path.insert(0, '/verif'); from vlib import core; print('translator:', core.run_translator()[0])"
